@@ -264,8 +264,8 @@ func genSeq(t *rapid.T, c *Case) {
 
 func genCase(t *rapid.T) Case {
 	c := Case{Seed: rapid.Uint64Range(0, 1<<20).Draw(t, "seed")}
-	// CLI cases start a child process (~0.1 s): about 1 in 128 cases in quick (~150 per run), 1 in 32 in thorough
-	if (&gctx{t: t}).u(cliRate(), "cli") == 0 {
+	// CLI cases start a child process (~0.1 s): 3 in 512 cases in quick (~115 per run, plus the fixed grid of 40), 1 in 32 in thorough
+	if cliDraw(&gctx{t: t}) {
 		c.Mode = "cli"
 		genCLI(t, &c)
 		return c
@@ -661,7 +661,7 @@ var spec = &hx.Spec[Case]{
 	Rule: "cases = (chain of Router[2..3]/Failover[2..3]/Cache[+repair]/Swap/Dedup over in-memory leaves incl. the shapes the CLI builds, 4 chunk IDs, " +
 		"per-leaf faults down / fail-at-call-k / invalid object) x (sequential history of <=30 get/has/store/swap/break/heal/corrupt steps compared step by step with a reference model, " +
 		"or a concurrent phase of 2..6 goroutines x 1..4 rounds against failover/swap chains with a controller swapping/breaking/healing and generated yields at failover.selected/swap.locked); " +
-		"plus, when the built command is available, CLI cases (about 1 in 128 quick / 1 in 32 thorough, and a fixed grid of 40): desync extract / cat / chunk-server --store-file + SIGHUP given 1..3 -s entries " +
+		"plus, when the built command is available, CLI cases (3 in 512 quick / 1 in 32 thorough, and a fixed grid of 40): desync extract / cat / chunk-server --store-file + SIGHUP given 1..3 -s entries " +
 		"(directory, harness HTTP chunk server, raw file server, failover group a|b of 2..3) and an optional -c cache (directory or writable HTTP store) with --cache-repair default/true/false, per member absent/valid/invalid objects and down = connection refused / always 500; " +
 		"non-trivial = history with a failover advance, a cache fill or a cache repair, or concurrent case with a failover advance or a swap issued while >=1 request was in flight, " +
 		"or CLI case whose documented resolution needs a failover advance, a cache fill or a cache repair; distinct by the whole case",
